@@ -239,6 +239,28 @@ def RunOK (env : Env) (sorter : Class → List Slot → List Slot) : List Class 
     else IsSorted (less env c) b.slots (sorter c b.slots) ∧
          RunOK env sorter cs (classIter env c (sorter c b.slots) b)
 
+/-- the weaker requirement the safety theorems actually need: every sort call returned SOME
+permutation of its input (sortedness only matters for which of the safe outcomes is chosen) -/
+def RunPerm (env : Env) (sorter : Class → List Slot → List Slot) : List Class → BState → Prop
+  | [], _ => True
+  | c :: cs, b =>
+    if env.desired c = 0 then RunPerm env sorter cs b
+    else (sorter c b.slots).Perm b.slots ∧
+         RunPerm env sorter cs (classIter env c (sorter c b.slots) b)
+
+theorem RunOK.toPerm {env : Env} {sorter : Class → List Slot → List Slot} :
+    ∀ {cs : List Class} {b : BState}, RunOK env sorter cs b → RunPerm env sorter cs b := by
+  intro cs
+  induction cs with
+  | nil => intro b _; trivial
+  | cons c cs ih =>
+    intro b h
+    unfold RunOK at h
+    unfold RunPerm
+    by_cases hd : env.desired c = 0
+    · simp only [hd, if_true] at h ⊢; exact ih h
+    · simp only [hd, if_false] at h ⊢; exact ⟨h.1.1, ih h.2⟩
+
 /-- "Don't trash any replicas of an underreplicated block, or replicas whose Mtimes are identical to
 needed replicas" -/
 def finalSlot (b : BState) (s : Slot) : Slot :=
@@ -292,6 +314,14 @@ def balanceBlock (env : Env) (classes : List Class) (sorter : Class → List Slo
 def BalanceOK (env : Env) (classes : List Class) (sorter : Class → List Slot → List Slot)
     (mounts : List Mount) (reps : List Replica) : Prop :=
   RunOK env sorter classes { slots := initSlots mounts reps, utd := [], underrep := false }
+
+def BalancePerm (env : Env) (classes : List Class) (sorter : Class → List Slot → List Slot)
+    (mounts : List Mount) (reps : List Replica) : Prop :=
+  RunPerm env sorter classes { slots := initSlots mounts reps, utd := [], underrep := false }
+
+theorem BalanceOK.toPerm {env : Env} {classes : List Class} {sorter : Class → List Slot → List Slot}
+    {mounts : List Mount} {reps : List Replica} (h : BalanceOK env classes sorter mounts reps) :
+    BalancePerm env classes sorter mounts reps := RunOK.toPerm h
 
 /-- the whole per-block pipeline from the discovered layout -/
 def plan (env : Env) (dflt : Class) (sorter : Class → List Slot → List Slot)
